@@ -37,6 +37,6 @@ Spec == Init /\ [][Next]_vars
 
 AtEnd == l = NRec + 1
 Brief == IF AtEnd THEN [l |-> l, bad |-> bad, ncalls |-> ncalls, nruns |-> nruns] ELSE [l |-> l]
-C03 == AtEnd => \A b \in bad : b[1] # "C03"
+C03 == AtEnd => NoneFor(bad, "C03")
 Report == AtEnd => PrintT(<<"ROBUST-REPORT", nruns, ncalls>>)
 ====================================================================================
